@@ -1703,6 +1703,9 @@ func (c *Ctx) isSDKValue(v ssa.Value) bool {
 //	    key parameter), the key comes out of the same conversion function that the one-of's UnserializeType uses before
 //	    its own lookup: the value walked is raw, decoded data, like the input of Unserialize (a JSON number is a float64).
 //
+//	(f) every such store is made only for a key that is absent from M (behind the failed comma-ok lookup of that key):
+//	    the walk of G reads "unset" as "the key is absent", so must the code that re-seeds.
+//
 // NOT checked by the machine, confirmed by reading: that G walks the value the way the recursion will (so that "G found
 // no place where v is needed again" means the recursion does not come back to this store with v), and that values built
 // under (b) nest only as deep as the Go struct types do, which cannot be recursive without a pointer or an interface.
@@ -1760,6 +1763,21 @@ func (c *Ctx) feedersGuarded(e termEdge) string {
 				}
 				if !reachedFrom(v, fn.Params[0], 0) {
 					continue // from the input
+				}
+				// (f) the value stands in for a key that is absent from M: the store lies behind the failed comma-ok lookup of
+				// the same key. That is what "unset" means to the walk of G (a key that is present, whatever it holds, is
+				// walked as supplied data); a store that is also made for a present key - an explicit null, say - re-seeds
+				// Unserialize at a place where the walk found nothing to re-seed.
+				absent := false
+				for _, cond := range core.CondsAt(b) {
+					if t, isOk := core.CommaOk(cond.V); isOk && !cond.True {
+						if lk, isLk := t.(*ssa.Lookup); isLk && lk.X == m && (lk.Index == x.Key || c.M.ValPath(lk.Index) == c.M.ValPath(x.Key)) {
+							absent = true
+						}
+					}
+				}
+				if !absent {
+					return ""
 				}
 				g := c.guardOf(fn, b, x.Value)
 				if g == nil {
